@@ -7,11 +7,11 @@ CONSTANTS
   Limit = 3
   Window = 4
   MaxRound = 3
-  MaxSnaps = 8
+  MaxSnaps = 7
   MaxEarly = 1
   Late = {}
   MaxPub = 1
-  MaxAhead = 1
+  MaxAhead = 2
   Interleave = FALSE
   Faults = FALSE
   RefChoice = FALSE
